@@ -42,6 +42,8 @@ type Scenario struct {
 	LongPause         bool
 	GrowBy            int  // > 0: the last interceptor also pads the value by this many bytes (a message may outgrow MaxMessageBytes)
 	SyncCloseMid      bool // sync producer: Close is called while the calls of the last burst (one goroutine per message) are pending
+	NilIcept          bool // the interceptor list has a nil slot after its first entry (a disabled interceptor)
+	ReuseConfig       bool // after the producer has closed, a second producer is built from the SAME Config and sends two messages
 	Msgs              []Msg
 	Faults            map[int]sarama.VerifSimFault // by global produce request number
 	MetaFailAt        map[int]bool
@@ -91,7 +93,8 @@ type Result struct {
 	Events     []Event
 	closeNow   int32 // set by the hook sink when CloseAtEvent is reached
 	CloseHang  bool
-	SyncStuck  int // sync producer: calls that never returned after Close was called while they were pending
+	Reuse      []string // interceptor marks of the messages of a second producer built from the same Config
+	SyncStuck  int      // sync producer: calls that never returned after Close was called while they were pending
 	ClosedOK   bool
 	SendPanic  string
 	GoPanic    string // a goroutine of the producer panicked (sarama.PanicHandler)
@@ -177,6 +180,8 @@ func Gen(seed uint64, focus string) *Scenario {
 		if sc.MaxMsgByte < 1000000 && r.Chance(1, 2) {
 			sc.GrowBy = sc.MaxMsgByte / 2
 		}
+		sc.NilIcept = r.Chance(1, 3)
+		sc.ReuseConfig = r.Chance(1, 3)
 	}
 	n := r.Range(1, 24)
 	if r.Chance(1, 5) {
@@ -477,6 +482,9 @@ func Run(sc *Scenario) *Result {
 			ic.grow = sc.GrowBy
 		}
 		cfg.Producer.Interceptors = append(cfg.Producer.Interceptors, ic)
+		if k == 0 && sc.NilIcept {
+			cfg.Producer.Interceptors = append(cfg.Producer.Interceptors, nil)
+		}
 	}
 	if err := cfg.Validate(); err != nil {
 		res.NewErr = "config: " + err.Error()
@@ -557,7 +565,50 @@ func Run(sc *Scenario) *Result {
 	for p := int32(0); p < sc.Partitions; p++ {
 		res.Logs[p] = sim.Log("t", p)
 	}
+	if sc.ReuseConfig && sc.Icepts > 0 && res.ClosedOK && !sc.Sync && res.NewErr == "" {
+		// a second producer built from the same Config value: the interceptor chain must still run once per message, in
+		// configuration order (its hook events are not part of the first producer's trace)
+		sarama.VerifSink = nil
+		res.Reuse = reuseConfig(sc, cfg, sim)
+	}
 	return res
+}
+
+// reuseConfig builds a second producer from the same Config, sends two messages and returns, per message, the
+// interceptor marks it carries when its outcome arrives ("" = no outcome within the bound).
+func reuseConfig(sc *Scenario, cfg *sarama.Config, sim *sarama.VerifSim) []string {
+	p, err := sarama.NewAsyncProducer(sim.Addrs(), cfg)
+	if err != nil {
+		return []string{"new: " + err.Error()}
+	}
+	var out []string
+	for i := 0; i < 2; i++ {
+		p.Input() <- &sarama.ProducerMessage{Topic: "t", Partition: 0, Value: sarama.StringEncoder("again")}
+		var m *sarama.ProducerMessage
+		select {
+		case m = <-p.Successes():
+		case e := <-p.Errors():
+			m = e.Msg
+		case <-time.After(8 * time.Second):
+			out = append(out, "")
+			continue
+		}
+		var marks []string
+		for _, h := range m.Headers {
+			if len(h.Key) > 0 && h.Key[0] == 'i' {
+				marks = append(marks, string(h.Key))
+			}
+		}
+		out = append(out, strings.Join(marks, ","))
+	}
+	done := make(chan struct{})
+	go func() { p.Close(); close(done) }()
+	select {
+	case <-done:
+	case <-time.After(8 * time.Second):
+		out = append(out, "close-hang")
+	}
+	return out
 }
 
 func outcomeOf(m *sarama.ProducerMessage, ok bool, err error) (Outcome, bool) {
@@ -1311,6 +1362,18 @@ func Check(res *Result) []Fail {
 			add("C16:oversize-message-sent", "message %d with %d key+value bytes reported successful, MaxMessageBytes=%d", o.ID, sz, sc.MaxMsgByte)
 		}
 	}
+	if len(res.Reuse) > 0 {
+		var want []string
+		for k := 0; k < sc.Icepts; k++ {
+			want = append(want, fmt.Sprintf("i%d", k))
+		}
+		for i, got := range res.Reuse {
+			if got != strings.Join(want, ",") && got != "close-hang" && !strings.HasPrefix(got, "new: ") {
+				add("C18:second-producer-from-same-config", "message %d of a second producer built from the same Config carries interceptor marks [%s], expected %v", i, got, want)
+				break
+			}
+		}
+	}
 	// ---- C18 interceptors: each adds one header i<k>; exactly once each, in order
 	if sc.Icepts > 0 {
 		checkH := func(where string, id int, hs []sarama.RecordHeader) {
@@ -1373,7 +1436,11 @@ func TraceLines(res *Result) []string {
 	if sc.Idempotent {
 		idem = 1
 	}
-	lines := []string{fmt.Sprintf("reset %d %d %d", sc.RetryMax, sc.Icepts, idem)}
+	slots := sc.Icepts
+	if sc.NilIcept && sc.Icepts > 0 {
+		slots++ // the nil slot is applied (and recovered from) like any other
+	}
+	lines := []string{fmt.Sprintf("reset %d %d %d", sc.RetryMax, slots, idem)}
 	for _, e := range res.Events {
 		lines = append(lines, fmt.Sprintf("ev %s %d %d %d %d", e.Kind, e.ID, e.A, e.B, e.P))
 	}
